@@ -16,6 +16,11 @@
 #include <thread>
 #include <sstream>
 #include <map>
+#include <bitset>
+#include <tuple>
+#include <optional>
+#include "celma/prog_args/eval_argument_string.hpp"
+#include "celma/prog_args/level_counter.hpp"
 using namespace celma::prog_args;
 
 extern "C" void exit(int code) { fprintf(stderr, "UNEXPECTED-EXIT code %d\n", code); fflush(stderr); _exit(99); }
@@ -68,13 +73,48 @@ static std::string h5() {
    std::string r = eval(h, {"-m", "2", "-p", "3.4.50.6"});
    return "H5 " + r.substr(0, 8) + " " + vec_text(p) + " m=" + std::to_string(m);
 }
+// "kitchen sink" bodies: two handlers that use (nearly) every feature of the library with DIFFERENT keys, lists, separators and values, so that
+// state hoisted to static scope in ANY feature is shared by two threads that need different contents
+template <int V> static std::string kitchen() {
+   std::ostringstream out, err;
+   std::vector<int> vi; std::vector<std::string> vs; int i1 = 0, i2 = 0; std::string s1, pos; std::optional<int> o; std::tuple<int, std::string> t{0, ""}; std::bitset<8> b;
+   std::map<std::string, int> kv; LevelCounter lc; bool f1 = false, f2 = false; int subv = 0; bool subf = false; double d = 0;
+   Handler h(out, err, Handler::hfHelpShort | Handler::hfHelpLong | Handler::hfHelpArg | Handler::hfUsageCont | Handler::hfListArgVar | Handler::hfEndValues);
+   Handler sub(h, 0);
+   h.addArgument(V ? "l,list" : "m,members", DEST_VAR(vi), "a list")->setListSep(V ? ':' : ',')->addCheck(range(1, V ? 100 : 50))->setUniqueData();
+   h.addArgument("w,words", DEST_VAR(vs), "words")->addFormat(V ? uppercase() : lowercase())->setListSep(V ? '+' : '/');
+   h.addArgument("i", DEST_VAR(i1), "first int")->addCheck(lower(V ? 0 : -10))->addConstraint(excludes(V ? "y" : "x"));
+   h.addArgument("j,jot", DEST_VAR(i2), "second int")->addCheck(upper(V ? 1000 : 500));
+   h.addArgument("s,string", DEST_VAR(s1), "a string")->addCheck(values(V ? "alpha,beta" : "gamma,delta,eps"))->addConstraint(requiresArg(V ? "i" : "j"));
+   h.addArgument("o,opt", DEST_VAR(o), "optional");
+   h.addArgument("t,tuple", DEST_VAR(t), "tuple")->setListSep(V ? '-' : '.');
+   h.addArgument("b,bits", DEST_VAR(b), "bitset")->setListSep(V ? ';' : ',');
+   h.addArgument("k,kv", DEST_VAR(kv), "key value pairs");
+   h.addArgument("v", DEST_VAR(lc), "verbosity");
+   h.addArgument("f", DEST_VAR(f1), "flag f"); h.addArgument("g", DEST_VAR(f2), "flag g");
+   h.addArgument("x", DEST_VAR(d), "a double")->addCheck(range(0.5, V ? 9.5 : 4.5)); h.addArgument("y", DEST_VAR(subf), "flag y")->setIsHidden();
+   h.addArgument("-", DEST_VAR(pos), "positional")->addCheck(minLength(V ? 2 : 3))->addCheck(pattern(V ? "^[a-z]+$" : "^[A-Z]+$"));
+   sub.addArgument("n", DEST_VAR(subv), "sub value"); h.addArgument(V ? "S,sub" : "G,grp", sub, "sub group");
+   h.addConstraint(all_of(V ? "i;s" : "j;string")); h.addConstraint(one_of(V ? "f;g" : "g;f;o")); h.addConstraint(any_of(V ? "o;v" : "x;y")); h.addConstraint(differ(V ? "i;j" : "j;i"));
+   std::vector<std::string> line = V ? std::vector<std::string>{"-l", "3:4:5:3", "--words", "ab+cd", "-i", "7", "-j", "9", "-s", "beta", "-t", "4-four", "-b", "1;3", "-k", "one,1;two,2", "-v", "-f", "-x", "2.5", "--sub", "-n", "11", "word", "--list-arg-vars", "--help-arg", "jot"}
+                                     : std::vector<std::string>{"--members=9,8,9", "-w", "XY/Zz", "-i", "3", "--string", "eps", "-j", "400", "--tuple", "6.six", "--bits=0,7", "--kv", "a,5", "-v", "-g", "-G", "-n", "12", "WORD", "--help-arg", "members", "--list-arg-vars"};
+   std::string r = eval(h, line);
+   // a second handler that takes its arguments from a string
+   std::ostringstream out2, err2; std::vector<int> v2; std::string s2; Handler h2(out2, err2, Handler::hfUsageCont);
+   h2.addArgument("n,numbers", DEST_VAR(v2), "numbers")->setListSep(V ? '|' : ';')->setTakesMultiValue(); h2.addArgument("s", DEST_VAR(s2), "string");
+   std::string r2; try { evalArgumentString(h2, V ? "-n 1|2 3 -s 'quoted text'" : "--numbers 7;8 -s \"other text\"", "prog"); r2 = "accepted"; } catch (const std::exception& e) { r2 = std::string("rejected(") + e.what() + ")"; }
+   std::string kvs; for (auto& e : kv) kvs += e.first + "=" + std::to_string(e.second) + ",";
+   std::string ws; for (auto& w : vs) ws += w + ",";
+   return std::string(V ? "K1 " : "K0 ") + r + " " + vec_text(vi) + " w=" + ws + " i=" + std::to_string(i1) + " j=" + std::to_string(i2) + " s=" + s1 + " t=" + std::to_string(std::get<0>(t)) + "/" + std::get<1>(t) + " b=" + b.to_string() + " kv={" + kvs + "} v=" + std::to_string(lc.value()) +
+          " f=" + std::to_string(f1) + std::to_string(f2) + " sub=" + std::to_string(subv) + " pos=" + pos + " out#" + std::to_string(vf::fnv(out.str()) % 1000000) + "/" + std::to_string(out.str().size()) + " | " + r2 + " " + vec_text(v2) + " s2=" + s2;
+}
 typedef std::string (*BodyFn)();
-static const BodyFn bodies[] = {h1, h2, h3, h4, h5};
-static const char* body_names[] = {"H1", "H2", "H3", "H4", "H5"};
-enum { NBODY = 5 };
-static char g_expected[NBODY][400];      // filled by the parent from the solo runs, inherited by every child
+static const BodyFn bodies[] = {h1, h2, h3, h4, h5, kitchen<0>, kitchen<1>};
+static const char* body_names[] = {"H1", "H2", "H3", "H4", "H5", "K0", "K1"};
+enum { NBODY = 7 };
+static char g_expected[NBODY][900];      // filled by the parent from the solo runs, inherited by every child
 static int g_members[3], g_nmembers;
-static char g_result[3][400];
+static char g_result[3][900];
 
 static void run_member(int slot) { std::string r = bodies[g_members[slot]](); snprintf(g_result[slot], sizeof g_result[slot], "%s", r.c_str()); }
 static void body_group() {
@@ -84,7 +124,7 @@ static void body_group() {
    for (int i = 0; i < g_nmembers; ++i) {
       xs::observe(g_result[i]);
       if (strcmp(g_result[i], g_expected[g_members[i]]) != 0) {
-         char b[900]; snprintf(b, sizeof b, "thread %d (%s) observed '%s' but alone it observes '%s'", i, body_names[g_members[i]], g_result[i], g_expected[g_members[i]]);
+         char b[2000]; snprintf(b, sizeof b, "thread %d (%s) observed '%s' but alone it observes '%s'", i, body_names[g_members[i]], g_result[i], g_expected[g_members[i]]);
          char sig[100]; snprintf(sig, sizeof sig, "outcome-differs-from-solo|%s", body_names[g_members[i]]); xs::fail(sig, b);
       }
    }
@@ -95,6 +135,7 @@ struct Scen { int n; int m[3]; int bound_quick, bound_thorough; };
 static const Scen scens[] = {
    {2, {0, 1, 0}, 3, 4}, {2, {0, 4, 0}, 3, 4}, {2, {1, 4, 0}, 3, 4}, {2, {0, 0, 0}, 3, 4}, {2, {2, 3, 0}, 2, 3}, {2, {0, 2, 0}, 2, 3}, {2, {1, 3, 0}, 2, 3}, {2, {2, 2, 0}, 2, 3}, {2, {3, 3, 0}, 2, 2}, {2, {4, 3, 0}, 2, 3},
    {3, {0, 1, 4}, 2, 3}, {3, {2, 3, 0}, 1, 2},
+   {2, {5, 6, 0}, 2, 3}, {2, {5, 5, 0}, 1, 2}, {2, {6, 6, 0}, 1, 2}, {3, {5, 6, 3}, 1, 2},
 };
 static std::string scen_name(const Scen& s) { std::string n; for (int i = 0; i < s.n; ++i) n += (i ? "+" : "") + std::string(body_names[s.m[i]]); return n; }
 
